@@ -1356,10 +1356,16 @@ pub fn reader_forward_bytes<R: Read>(reader: &mut R, n: usize, visitor: VisS) ->
     requires bounded(*old(reader)),
     ensures bytes_forwarded(*old(reader), *final(reader), n, visitor, r), final(reader).wf(), final(reader).reliable() == old(reader).reliable(),
 { unimplemented!() }
-pub const DECIMAL32_WIDTH: usize = 4;
-pub const DECIMAL64_WIDTH: usize = 8;
-pub const DECIMAL128_WIDTH: usize = 16;
-pub const UUID_WIDTH: usize = 16;
+//@@ type file=serde_amqp/src/fixed_width.rs kind=const name=DECIMAL32_WIDTH
+//@@ end
+//@@ type file=serde_amqp/src/fixed_width.rs kind=const name=DECIMAL64_WIDTH
+//@@ end
+//@@ type file=serde_amqp/src/fixed_width.rs kind=const name=DECIMAL128_WIDTH
+//@@ end
+//@@ type file=serde_amqp/src/fixed_width.rs kind=const name=UUID_WIDTH
+//@@ end
+/// AMQP 1.0 part 1, 1.6.13-1.6.15, 1.6.18: decimal32 / 64 / 128 are 4 / 8 / 16 octets, uuid 16
+proof fn spec_fixed_widths() ensures DECIMAL32_WIDTH == 4, DECIMAL64_WIDTH == 8, DECIMAL128_WIDTH == 16, UUID_WIDTH == 16 {}      // [C05.constants.fixed-widths] [C03.constants.fixed-widths] [C20.constants.fixed-widths]
 /// what a fixed-width value shown to the visitor as raw octets decodes from: constructor `code`, then `w` octets
 pub open spec fn fixed_shown<R: Read>(de0: Deserializer<R>, de1: Deserializer<R>, code: u8, w: int, r: Result<VisValue, Error>) -> bool {
     let u = eff_unread(de0);
